@@ -308,6 +308,13 @@ def func_adl_parameterized_call(
     return decorator
 
 
+def _takes_receiver(class_attribute: Any) -> bool:
+    "Is this attribute of a class a plain method - a function (or a builtin's method) that is handed the object first?"
+    if isinstance(class_attribute, (staticmethod, classmethod)):
+        return False
+    return inspect.isfunction(class_attribute) or inspect.ismethoddescriptor(class_attribute)
+
+
 def _fill_in_default_arguments(
     func: Callable, call: ast.Call, fill_in_defaults: bool = True, has_receiver: bool = False
 ) -> Tuple[ast.Call, Type]:
@@ -345,7 +352,7 @@ def _fill_in_default_arguments(
     arg_array = list(call.args)
     keywords = list(call.keywords)
     for i_param, param in enumerate(sig.parameters.values()):
-        is_receiver = (i_param == 0) if has_receiver else (param.name == "self")
+        is_receiver = has_receiver and i_param == 0
         # The stream operators (Select, Where, ...) keep exactly what the user wrote - their
         # extra parameters are for internal use only.
         if not is_receiver and fill_in_defaults:
@@ -668,7 +675,7 @@ def remap_by_types(
                     base_obj.method,
                     r_node,
                     fill_in_defaults=base_obj.method_class is not ObjectStream,
-                    has_receiver=inspect.isfunction(
+                    has_receiver=_takes_receiver(
                         inspect.getattr_static(base_obj.method_class, m_name, None)
                     ),
                 )
